@@ -38,7 +38,7 @@ class C43(core.Prop):
             "AppSide and the checker do.  Oracle: the decoder consumes exactly the bytes that were encoded (none left, none missing); "
             "type, actor, and every object id / parameter of the decoded transition equal those of the kernel objects the observer "
             "designates (read from the live objects, not from the encoded bytes); semaphore capacity as documented by the encoder "
-            "(value - waiting for LOCK/UNLOCK, value for WAIT).  One case in four (of those drawn for it: 1/4) also runs simgrid-mc (reduction none, dpor or odpor, depth-bounded) "
+            "(value - waiting for LOCK/UNLOCK, value for WAIT).  One case in four (of those drawn for it: 1/4) also runs simgrid-mc (reduction none with max-depth 30, or dpor / odpor unbounded, 15 s of CPU) "
             "on the program: it must end (exploration ended / deadlock / property violation) or print a clear error; a run that "
             "dies of an uncaught exception or a signal, or in which checker and application all sleep in a read "
             "on their socket without consuming CPU (they wait for each other: a hang, detected from /proc, not from the wall clock) "
@@ -148,7 +148,9 @@ class C43(core.Prop):
     def run_checker(self, case, oc):
         import re
         red = case["mc"] if isinstance(case["mc"], str) else "dpor"
-        r0, hang = peek.run_checker(case["scenario"], ["model-check/reduction:" + red, "model-check/max-depth:30"] + mcrun.BASE_CFG, cpu=15, wall=600)
+        # a depth bound only without reduction: simgrid-mc itself warns that stopping at a fixed depth breaks dpor/odpor
+        bound = ["model-check/max-depth:30"] if red == "none" else []
+        r0, hang = peek.run_checker(case["scenario"], ["model-check/reduction:" + red] + bound + mcrun.BASE_CFG, cpu=15, wall=600)
         if r0.wall_exceeded:
             raise core.Inconclusive()
         r = mcrun.McResult(case["scenario"], r0)
